@@ -11,7 +11,7 @@ one() {
   mkdir -p $vd; cp -r /verif/known_findings.json /verif/claims /verif/bounded $vd/
   if ! git -C $wt apply $d/patch.diff 2>/dev/null; then echo "$id PATCH DOES NOT APPLY" > $work/$id.out
   else
-    GOFLAGS=-mod=mod GOPROXY=off GOSUMDB=off GOTOOLCHAIN=local /verif/bin/gvc check -prop $prop -repo $wt -verif $vd 2>&1 | grep -E '^VIOLATION|^property' | sed 's/.*obligation=\([^ ]*\) status=\([a-z]*\).*/\1 (\2)/' | sort -u | head -8 > $work/$id.out
+    GOFLAGS=-mod=mod GOPROXY=off GOSUMDB=off GOTOOLCHAIN=local /verif/bin/gvc check -prop $prop -repo $wt -verif $vd 2>&1 | grep -E '^VIOLATION|^property' | sed 's/.*obligation=\(.*\) status=\([a-z]*\).*/\1 (\2)/' | sort -u | head -8 > $work/$id.out
   fi
   git -C /repo worktree remove --force $wt 2>/dev/null; rm -rf $vd
 }
